@@ -68,7 +68,10 @@ META = dict(
          "the deterministic scheduler in harness/props/c15_sched.py. Element parsing itself is abstracted "
          "(an element = a deterministic function of its children's results); exception messages are not "
          "compared; _LRUMemo (bounded LR memo) is not modelled; enable_*/disable_memoization during "
-         "concurrent parsing is out of scope.",
+         "concurrent parsing is out of scope. Locks (Part 5): a thread is abstracted to the list of its lock "
+         "operations; that the real threads' sequences have the shapes PackratProg / LRProg (hence are ordered) is "
+         "checked on every logged trace of the nested-call leg (`locks-check`), not derived from the source; the "
+         "nested-call grammars' actions are harness code that brackets the nested call with marker pseudo-events.",
     technique="Lean 4 proof over a small-step N-thread model + trace validation + forced-schedule correspondence",
     design="§5 C15",
 )
@@ -196,6 +199,8 @@ def mk_call(pp, expr, entry, s):
     if entry == "search":
         return lambda: outcome_of(pp, lambda: "search " + repr(
             [S.canon_results(t) for t in expr.search_string(s)]))
+    if entry == "transform":
+        return lambda: outcome_of(pp, lambda: "xform " + repr(expr.transform_string(s)))
     raise ValueError(entry)
 
 
